@@ -55,7 +55,7 @@ def check(model, R, tier):
                 seeds[d] = (n, [norm(a) for a in n.value.args], cfg.conditions(n))
     families = set()
     draws = []
-    for fn in model.funcs.values():
+    for fn in model.live_funcs():
         if fn.parent is not None and fn.parent.qualname.startswith('synapgrad.visual'):
             continue
         fcfg = None
@@ -91,7 +91,7 @@ def check(model, R, tier):
         R.ob('C19.SEED', ms.qualname, '%s(%s)' % (d, s[1] if s else None), ok or not need, 'manual_seed must seed the %s generator with its argument, unconditionally' % fam, ms.loc)
     # ---------------------------------------------------------------- ORDER
     n_sets = 0
-    for fn in model.funcs.values():
+    for fn in model.live_funcs():
         if fn.mod.modname.startswith('synapgrad.visual'):
             continue
         setnames = set()
@@ -136,7 +136,7 @@ def check(model, R, tier):
     check_uninit(model, R)
     # ---------------------------------------------------------------- NOADDR
     n_id = 0
-    for fn in model.funcs.values():
+    for fn in model.live_funcs():
         if fn.mod.modname.startswith('synapgrad.visual'):
             continue
         parents = {}
@@ -199,7 +199,7 @@ def check_uninit(model, R):
     from sa.peval import PE
     EMPTY = {'synapgrad.tensor.empty', 'synapgrad.empty', 'numpy.empty', 'numpy.empty_like'}
     users = []
-    for fn in model.funcs.values():
+    for fn in model.live_funcs():
         if fn.mod.modname.startswith('synapgrad.visual') or fn.qualname in ('synapgrad.tensor.empty',) or fn.parent is not None:
             continue
         if any(isinstance(c, ast.Call) and (model.resolve(fn.mod, c.func) in EMPTY) for c in ast.walk(fn.node)):
